@@ -2,7 +2,7 @@
 import numpy as np
 import common
 from common import show_floats, show_ints, fbits
-import tprog, gen_dag, gen_ops
+import tprog, gen_dag, gen_ops, views
 
 tprog.ENTRIES = True        # function / Tensor method / operator / nn layer class
 tprog.SPELLINGS = True
@@ -12,14 +12,21 @@ LEAN_TARGETS = ['Props.C05']
 REQUIRED_THEOREMS = ['Props.C05.flatten_spec', 'Props.C05.unfold_dim_spec', 'Props.C05.sum_spec', 'Props.C05.matmul_spec',
                      'Props.C05.iteration_protocol', 'Props.C05.ctor_shape_forms', 'Props.C05.operator_forms', 'Props.C05.transpose_spec', 'Props.C05.movedim_spec', 'Props.C05.reshape_spec', 'Props.C05.concat_spec', 'Props.C05.stack_spec', 'Props.C05.unbind_spec', 'Props.C05.index_spec', 'Props.C05.mul_spec', 'Props.C05.mean_spec', 'Props.C05.max_spec', 'Props.C05.squeeze_many_spec', 'Props.C05.unsqueeze_spec']
 REQUIRED_THEOREMS += ['Props.C05.' + t for t in ['src_calls_transpose', 'src_calls_movedim', 'src_calls_reshape', 'src_calls_unsqueeze', 'src_calls_matmul', 'src_calls_addmm_forward', 'src_calls_sum_forward', 'src_calls_concat_forward', 'src_calls_stack', 'src_calls_unbind_forward', 'src_calls_slice']]   # ties to the source read on this run
+REQUIRED_THEOREMS += ['Props.C05.' + t for t in ['arange_forms', 'arange_explicit_end_zero', 'arange_negative_interval', 'arange_count_down', 'opt_given_is_kept', 'ctor_empty_shape_vs_zero_extent']]   # constructor calls (SynapModel/Ctors.lean)
 RULE = ('forward of every tensor op on operand ranks 0-5 over the whole argument space (same generators as C01 with rank <= 5, plus '
         '~10 % malformed arguments: accept/reject must agree); operator and reflected-operator forms with Python scalars on float64 '
         'and float32 tensors; constructors in their three shape spellings, eye, arange, *_like; several simultaneous and nested '
-        'iterations over one tensor. The failing-input search compares with a direct NumPy evaluation. Non-trivial: accepted call '
+        'iterations over one tensor. CONSTRUCTOR CALLS (`t mk`, SynapModel/Ctors.lean): zeros / ones / empty / rand / randn / eye / arange / normal / '
+        'randint / zeros_like / ones_like / tensor() / Tensor() with every argument position taking falsy-but-meaningful values (0, 0.0, -0.0, '
+        'False, (), [], zero extents, scale 0, end 0), one- / two- / three-argument arange over negative, reversed and float intervals '
+        '(plus the complete small grid around zero), positional / keyword / mixed spellings, dtype= and requires_grad= omitted / None / '
+        'given: value, shape, dtype, flags and accept / reject against the model; random constructors: shape, dtype and the range of the '
+        'values. NON-CONTIGUOUS INTERIOR OPERANDS: every op (flatten most often, whole-tensor and partial ranges) applied to the result of '
+        'transpose / movedim / stepped or reversed slices / elementwise ops on those (harness/views.py). The failing-input search compares with a direct NumPy evaluation. Non-trivial: accepted call '
         'with a result of > 1 element, or an iteration with >= 2 live iterators.')
 EXHAUSTIVE = {'quick': False, 'thorough': False}
 ASSUMPTIONS = ['float64 values except in the dtype-specific cases; rel 1e-9']
-TRUSTED_BASE = ['harness/tprog.py, harness/gen_ops.py']
+TRUSTED_BASE = ['harness/tprog.py, harness/gen_ops.py, harness/views.py']
 TRUSTED_BASE = TRUSTED_BASE + ['harness/array_formulas.py + lean/SynapModel/NpCalls.lean (reading of the array kernels as compositions of NumPy calls, Generated/KernelCalls.lean; what each NumPy function does is the hand-written array model)']
 
 
@@ -36,6 +43,40 @@ def op_case(rng, op):
     lines = gen_ops.program(c, rng)
     nl = len(leaves)
     c['lines'] = lines + [f't val {nl}', f't val {nl + 1}', f't val {nl + 2}']
+    return c
+
+
+def chain_case(rng, op, kinds=None):
+    """the op applied to INTERIOR tensors whose buffer is not C-contiguous: one or all operands are the result of a transpose / movedim
+    (optionally followed by elementwise ops), of a stepped / reversed slice, or of both (harness/views.py); the model sees arrays,
+    the implementation strided views. `leaves` keeps the logical operand values (what the NumPy oracle evaluates)."""
+    save = gen_ops.rshape
+    gen_ops.rshape = lambda r, rmin=0, rmax=4, smax=3: save(r, rmin, min(rmax + 1, 5), smax if rmax < 4 else 2)
+    try:
+        for _ in range(20):
+            leaves, args = gen_ops.gen_basic(rng, op, False)
+            if op != 'flatten' or rng.chance(.5): break
+            if len(leaves[0][0]) >= 2 and sum(n > 1 for n in leaves[0][0]) >= 2:       # flatten: mostly operands where a permuted buffer differs, the whole tensor half of the time
+                if rng.chance(.5): args = [rng.pick([0, -len(leaves[0][0])]), rng.pick([-1, len(leaves[0][0]) - 1])]
+                break
+    finally:
+        gen_ops.rshape = save
+    lines, ids, kinds_used = [], [], []
+    which = [k for k, lf in enumerate(leaves) if len(lf[0]) >= 1]
+    chosen = set(which if rng.chance(.4) else rng.sample(which, 1) if which else [])
+    n = 0
+    for k, (sh, data, _) in enumerate(leaves):
+        plan = views.view_plan(rng, sh, data, kinds) if k in chosen else None
+        lsh, ldata = (plan[0], plan[1]) if plan else (sh, data)
+        lines.append(gen_dag.leaf_line(lsh, ldata, False)); cur = n; n += 1
+        for name, a in (plan[2] if plan else []):
+            lines.append(' '.join(['t op', name, str(cur)] + [str(q) for q in a])); cur = n; n += 1
+        if plan: kinds_used.append(plan[3])
+        ids.append(cur)
+    opline = len(lines)
+    lines.append(' '.join(['t op', op, show_ints(ids)] + [str(a) for a in args]))
+    c = {'kind': 'op', 'op': op, 'leaves': [(s_, d_, False) for s_, d_, _ in leaves], 'args': args, 'malformed': False, 'opline': opline, 'first_out': n,
+         'chain': kinds_used, 'lines': lines + [f't val {n}', f't val {n + 1}', f't val {n + 2}']}
     return c
 
 
@@ -88,6 +129,291 @@ def ctor_case(rng):
     return {'kind': 'ctor', 'lines': lines + [f't val {k}', f't dtype {k}', f't flags {k}'], 'malformed': False}
 
 
+# ---- constructor CALLS: every argument position, falsy-but-meaningful values, every spelling ---------------------------
+# `t mk <kind> <spelling> <A> <B> <dtype> <requires_grad>` (lean/SynapModel/Ctors.lean, Drv/Ctors.lean).  Numbers are `i<int>`
+# (a Python int) or `f<bits>` (a Python float); <dtype> / <requires_grad> are `-` (omitted), `none` (dtype=None) or a value.
+def _num(x):
+    return f'i{x}' if isinstance(x, int) and not isinstance(x, bool) else f'f{fbits(x)}'
+
+
+def _pynum(tok):
+    return int(tok[1:]) if tok[0] == 'i' else common.bitsf(tok[1:])
+
+
+_NUMS = [0, 0, 0.0, -0.0, 1, -1, 2, 3, -3, 5, -4, 0.5, -0.5, 1.5, 2.5, -2.5, 0.25, 0.1, 0.3, 0.7, 4]
+_STEPS = [1, 1, -1, -1, 2, 3, -2, 0.5, -0.5, 0.25, 1.5, 0.1, -0.3, 0.7, 0, 0.0, -0.0]
+
+
+def mk_line(kind, sp, A, B='_', dt='-', rg='-'):
+    return f't mk {kind} {sp} {A} {B} {dt} {rg}'
+
+
+def _mk_finish(lines, falsy, kind):
+    k = len(lines) - 1
+    return {'kind': 'mk', 'mk': kind, 'dt': 'f32', 'falsy': falsy, 'malformed': False,
+            'lines': lines + [f't val {k}', f't dtype {k}', f't flags {k}']}
+
+
+def _opt_kw(rng, dts=('-', '-', '-', 'none', 'f32', 'f64'), rgs=('-', '-', '-', '0', '0', '1')):
+    return rng.pick(list(dts)), rng.pick(list(rgs))
+
+
+def mk_arange(rng, args=None, sp=None):
+    if args is None:
+        n = rng.pick([1, 2, 2, 3, 3, 3])
+        z = lambda pool: 0 if rng.chance(.3) else rng.pick(pool)       # a zero in every position, often
+        if n == 1: args = [z(_NUMS)]
+        else:
+            a, b = z(_NUMS), z(_NUMS)
+            if rng.chance(.3): b = rng.pick([0, 0.0, -0.0])             # an explicit end of zero: negative interval, count-down, empty range
+            args = [a, b] + ([rng.pick(_STEPS)] if n == 3 else [])
+            if n == 3 and rng.chance(.5) and args[2] not in (0, 0.0) and (b - a) * args[2] < 0: args[2] = -args[2]      # mostly non-empty
+    sp = sp or rng.pick(['p', 'p', 'k', 'm'])
+    dt, rg = _opt_kw(rng)
+    falsy = any(v == 0 for v in args)
+    c = _mk_finish([mk_line('arange', sp, ','.join(_num(v) for v in args), '_', dt, rg)], falsy, 'arange')
+    # NumPy fills a float32 arange as first + k * (second - first) in float32: the rounding of the step is carried k times
+    st = args[2] if len(args) == 3 else 1
+    n = abs((args[1] - args[0]) / st) if len(args) > 1 and st else abs(args[0])
+    c['rtol'] = 1e-6 + 3e-7 * n
+    return c
+
+
+def mk_shape(rng):
+    kind = rng.pick(['zeros', 'ones', 'empty', 'rand', 'randn', 'rand', 'randn'])
+    dims = [rng.pick([0, 0, 1, 2, 3]) for _ in range(rng.pick([0, 0, 1, 1, 2, 3]))]
+    if rng.chance(.06) and dims: dims[rng.randrange(len(dims))] = -1          # rejected by NumPy
+    dt, rg = _opt_kw(rng, dts=('-', '-', 'none', 'f32', 'f64', 'i32') if kind in ('zeros', 'ones') else ('-', '-', 'none', 'f64'))
+    return _mk_finish([mk_line(kind, rng.pick(['v', 't', 'l']), show_ints(dims), '_', dt, rg)], not dims or 0 in dims, kind)
+
+
+def mk_eye(rng):
+    n = rng.pick([0, 0, 1, 2, 3, -1])
+    dt, rg = _opt_kw(rng, dts=('-', '-', 'none', 'f64', 'i64'))
+    return _mk_finish([mk_line('eye', rng.pick(['p', 'k', 'pd']), str(n), '_', dt, rg)], n == 0, 'eye')
+
+
+def mk_normal(rng):
+    loc = rng.pick([0, 0.0, -0.0, 1.5, 2, -2.5, 0.25])
+    scale = rng.pick([0, 0, 0.0, 0.0, -0.0, 1, 0.5, 2.0, -1, -0.5])       # scale 0: a point mass at loc; a set sign bit is rejected
+    dims = [rng.pick([0, 1, 2, 3]) for _ in range(rng.pick([0, 1, 1, 2]))]
+    if rng.chance(.05) and dims: dims[0] = -1
+    dt, rg = _opt_kw(rng, dts=('-', '-', 'none', 'f64'))
+    return _mk_finish([mk_line('normal', 'p', show_ints(dims), f'{_num(loc)},{_num(scale)}', dt, rg)], True, 'normal')
+
+
+def mk_randint(rng):
+    low, high = rng.pick([(0, 1), (-3, 0), (0, 3), (-1, 0), (0, 0), (2, 1), (-2, -1), (-2, 2), (0, 2), (1, 0), (-4, 0)])
+    dims = [rng.pick([0, 1, 2, 3]) for _ in range(rng.pick([0, 0, 1, 1, 2]))]
+    dt, rg = _opt_kw(rng, dts=('-', '-', 'none', 'i64', 'f32'), rgs=('-', '-', '0', '1'))
+    return _mk_finish([mk_line('randint', rng.pick(['t', 'l', 'tk', 'lk']), show_ints(dims), f'{low},{high}', dt, rg)], True, 'randint')
+
+
+def mk_like(rng):
+    sh = rng.pick([(), (), (1,), (2,), (0,), (2, 0), (0, 3), (2, 3), (1, 1, 2)])
+    sdt = rng.pick(['f32', 'f64', 'f64', 'i64', 'i32'])
+    n = int(np.prod(sh)) if sh else 1
+    data = [float(rng.randint(-3, 3)) for _ in range(n)]
+    dt, rg = _opt_kw(rng, dts=('-', '-', 'none', 'f32', 'f64', 'i64'))
+    lines = [gen_dag.leaf_line(sh, data, sdt in ('f32', 'f64') and rng.chance(.3), sdt), mk_line(rng.pick(['like0', 'like1']), rng.pick(['p', 'k', 'pd']), '0', '_', dt, rg)]
+    return _mk_finish(lines, sh == () or 0 in sh, 'like')
+
+
+def mk_data(rng):
+    entry = rng.pick(['f', 'T'])
+    pk = rng.pick(['int', 'float', 'bool', 'list', 'tuple', 'ilist', 'blist', 'ndf64', 'ndf32', 'ndi64', 'npf64', 'npf32', 'npi64'])
+    scalar = pk in ('int', 'float', 'bool', 'npf64', 'npf32', 'npi64')
+    integral = pk in ('int', 'bool', 'ilist', 'blist', 'ndi64', 'npi64')
+    if scalar: sh = ()
+    elif pk.startswith('nd'): sh = rng.pick([(), (0,), (1,), (2,), (0, 2), (2, 0), (2, 2)])
+    else: sh = rng.pick([(0,), (0,), (1,), (2,), (1, 0), (2, 0), (2, 2), (1, 2, 0)])        # a nested list / tuple spells a zero extent only in last place
+    n = int(np.prod(sh)) if sh else 1
+    if pk in ('bool', 'blist'): vals = [float(rng.randint(0, 1)) for _ in range(n)]
+    elif integral: vals = [float(rng.pick([0, 0, 1, -2, 3])) for _ in range(n)]
+    else: vals = [rng.pick([0.0, 0.0, -0.0, 2.75, -2.75, 0.5, 1.0, -1.0]) for _ in range(n)]
+    dt, rg = _opt_kw(rng, dts=('-', '-', 'none', 'f32', 'f64', 'i32', 'i64'))
+    sp = f'{entry}:{pk}' + (':k' if rng.chance(.25) else '')
+    return _mk_finish([mk_line('data', sp, show_ints(sh), show_floats(vals), dt, rg)], all(v == 0 for v in vals), 'data')
+
+
+def mk_case(rng):
+    return rng.pick([mk_arange, mk_arange, mk_arange, mk_shape, mk_shape, mk_eye, mk_normal, mk_randint, mk_like, mk_data, mk_data])(rng)
+
+
+def mk_enumerated(rng, tier):
+    """the complete small grid of arange calls around zero, in every spelling"""
+    pts = [-2, 0, 3] if tier == 'quick' else [-2, -1, 0, 0.0, 1.5, 3]
+    steps = [1, -1, 2] if tier == 'quick' else [1, -1, 2, 0.5, -0.5, 0]
+    out = []
+    for k, a in enumerate(pts):
+        out.append(mk_arange(rng, [a], 'pk'[k % 2]))
+        for j, b in enumerate(pts):
+            out.append(mk_arange(rng, [a, b], 'pkm'[(k + j) % 3]))
+            for i, st in enumerate(steps):
+                out.append(mk_arange(rng, [a, b, st], 'pkm'[(k + j + i) % 3]))
+    for c in out: c['enumerated_mk'] = True
+    return out
+
+
+class CtorImpl(tprog.Impl):
+    """tprog.Impl plus the `t mk` line: the call is WRITTEN as its spelling says (keywords, positional dtype, varargs / tuple / list,
+    Python int / float / bool, nested lists, NumPy arrays and scalars).  A spelling the constructor rejects is not part of its
+    documented argument space: the call is then judged on the plain positional spelling."""
+    def run(self, line):
+        t = line.split(' ')
+        if t[1] == 'mk':
+            return self.mk(*t[2:])
+        return super().run(line)
+
+    def mk(self, kind, sp, A, B, dt, rg):
+        sg = self.sg
+        kw = {}
+        if dt != '-': kw['dtype'] = None if dt == 'none' else tprog.DT[dt]
+        if rg != '-': kw['requires_grad'] = bool(int(rg))
+        pred = None
+        determined = True
+        if kind in ('zeros', 'ones', 'empty', 'rand', 'randn'):
+            dims = common.parse_ints(A)
+            f = getattr(sg, kind)
+            args = tuple(dims) if sp == 'v' else (tuple(dims),) if sp == 't' else (list(dims),)
+            calls = [lambda: f(*args, **kw)]
+            determined = kind in ('zeros', 'ones')
+            pred = {'rand': lambda a: bool(np.all((a >= 0) & (a < 1))), 'randn': lambda a: bool(np.all(np.isfinite(a)))}.get(kind)
+        elif kind == 'eye':
+            n = int(A)
+            kwd = dict(kw); d = kwd.pop('dtype', None)
+            calls = [lambda: sg.eye(n, **kw)]
+            if sp == 'k': calls.insert(0, lambda: sg.eye(dim=n, **kw))
+            if sp == 'pd' and 'dtype' in kw: calls.insert(0, lambda: sg.eye(n, d, **kwd))
+        elif kind == 'arange':
+            a = [_pynum(x) for x in A.split(',')]
+            calls = [lambda: sg.arange(*a, **kw)]
+            names = ['start', 'end', 'step']
+            if sp == 'k':
+                ka = {'end': a[0]} if len(a) == 1 else dict(zip(names, a))
+                calls.insert(0, lambda: sg.arange(**ka, **kw))
+            if sp == 'm' and len(a) > 1:
+                ka = dict(zip(names[1:], a[1:])) if len(a) == 2 else {'step': a[2]}
+                pa = a[:1] if len(a) == 2 else a[:2]
+                calls.insert(0, lambda: sg.arange(*pa, **ka, **kw))
+        elif kind == 'normal':
+            dims = common.parse_ints(A)
+            loc, scale = [_pynum(x) for x in B.split(',')]
+            calls = [lambda: sg.normal(loc, scale, *dims, **kw)]
+            determined = scale == 0
+            pred = lambda a: bool(np.all(np.isfinite(a)))
+        elif kind == 'randint':
+            dims = common.parse_ints(A)
+            low, high = common.parse_ints(B)
+            shp = tuple(dims) if sp[0] == 't' else list(dims)
+            calls = [lambda: sg.randint(low, high, shp, **kw)]
+            if sp.endswith('k'): calls.insert(0, lambda: sg.randint(low=low, high=high, shape=shp, **kw))
+            determined = high == low + 1
+            pred = lambda a: bool(np.all((a >= low) & (a < high)))
+        elif kind in ('like0', 'like1'):
+            x = self.ts[int(A)]
+            f = sg.ones_like if kind == 'like1' else sg.zeros_like
+            kwd = dict(kw); d = kwd.pop('dtype', None)
+            calls = [lambda: f(x, **kw)]
+            if sp == 'k': calls.insert(0, lambda: f(tensor=x, **kw))
+            if sp == 'pd' and 'dtype' in kw: calls.insert(0, lambda: f(x, d, **kwd))
+        elif kind == 'data':
+            parts = sp.split(':')
+            entry, pk = parts[0], parts[1]
+            shape = tuple(common.parse_ints(A))
+            arr = np.array(common.parse_floats(B), dtype=np.float64).reshape(shape)
+            def tup(v): return tuple(tup(q) for q in v) if isinstance(v, list) else v
+            obj = {'int': lambda: int(arr), 'float': lambda: float(arr), 'bool': lambda: bool(arr), 'list': lambda: arr.tolist(), 'tuple': lambda: tup(arr.tolist()),
+                   'ilist': lambda: arr.astype(np.int64).tolist(), 'blist': lambda: arr.astype(bool).tolist(),
+                   'ndf64': lambda: arr.copy(), 'ndf32': lambda: arr.astype(np.float32), 'ndi64': lambda: arr.astype(np.int64),
+                   'npf64': lambda: np.float64(arr), 'npf32': lambda: np.float32(arr), 'npi64': lambda: np.int64(arr)}[pk]()
+            f = sg.tensor if entry == 'f' else sg.Tensor
+            calls = [lambda: f(obj, **kw)]
+            if len(parts) > 2: calls.insert(0, lambda: f(data=obj, **kw))
+        else:
+            raise KeyError(kind)
+        r = None
+        for k, call in enumerate(calls):
+            try:
+                r = call(); break
+            except Exception:
+                if k == len(calls) - 1: raise
+        if determined:
+            self.ts.append(r); return f't{len(self.ts) - 1}'
+        ans = f'r {show_ints(r.shape)} {tprog.DTN.get(r.data.dtype, str(r.data.dtype))} rg={int(bool(r.requires_grad))}'
+        if pred is not None and not pred(r.data): ans += ' values-outside-the-distribution'
+        return ans
+
+
+def _mk_reference(c):
+    """what the call must answer, from NumPy directly (no model): ('rejected',) or (shape, values-or-None, dtype, requires_grad)"""
+    ln = [l for l in c['lines'] if l.startswith('t mk')][0].split(' ')
+    kind, sp, A, B, dt, rg = ln[2:]
+    own, vals = np.float32, None
+    if kind in ('zeros', 'ones', 'empty', 'rand', 'randn'):
+        dims = common.parse_ints(A)
+        if kind in ('rand', 'randn') and not dims: return ('rejected',)       # np.random.rand() is a Python float
+        vals = np.zeros(dims) if kind != 'ones' else np.ones(dims)
+        if kind not in ('zeros', 'ones'): vals = (vals.shape,)
+    elif kind == 'eye': vals = np.eye(int(A))
+    elif kind == 'arange': vals = np.arange(*[_pynum(x) for x in A.split(',')], dtype=np.float64)
+    elif kind == 'normal':
+        loc, scale = [_pynum(x) for x in B.split(',')]
+        if np.signbit(scale): return ('rejected',)
+        vals = np.full(common.parse_ints(A), float(loc))
+        if scale != 0: vals = (vals.shape,)
+    elif kind == 'randint':
+        low, high = common.parse_ints(B)
+        vals = np.full(common.parse_ints(A), float(low)); own = np.int32
+        if low >= high and vals.size: return ('rejected',)       # (NumPy checks the bounds only when a value is drawn)
+        if high != low + 1: vals = (vals.shape,)
+    elif kind in ('like0', 'like1'):
+        l0 = c['lines'][0].split(' ')
+        vals = np.full(tuple(common.parse_ints(l0[3])), float(kind == 'like1')); own = tprog.DT[l0[2]]
+    elif kind == 'data':
+        pk = sp.split(':')[1]
+        vals = np.array(common.parse_floats(B), dtype=np.float64).reshape(tuple(common.parse_ints(A)))
+        if sp[0] == 'T' and pk[:2] in ('nd', 'np'): own = tprog.DT[pk[2:]]
+    d = np.dtype(own if dt in ('-', 'none') else tprog.DT[dt])
+    want_rg = rg == '1'
+    if want_rg and d.kind != 'f': return ('rejected',)
+    if isinstance(vals, tuple): return (vals[0], None, d, want_rg)
+    return (vals.shape, vals.astype(d).astype(np.float64), d, want_rg)
+
+
+def _oracle_mk(c):
+    io = tprog.run_program(c['lines'], CtorImpl)
+    k = [i for i, l in enumerate(c['lines']) if l.startswith('t mk')][0]
+    call = c['lines'][k]
+    key = {'kind': 'mk', 'ctor': c['mk']}
+    try:
+        with np.errstate(all='ignore'):
+            ref = _mk_reference(c)
+    except Exception:
+        ref = ('rejected',)
+    got = io[k]
+    if ref == ('rejected',):
+        if got != 'rejected':
+            return {'key': dict(key, cls='accepted-illegal'), 'case': c, 'what': f'`{call}` was answered ({got}, {io[k + 1:]}) although NumPy rejects these arguments'}
+        return None
+    shape, vals, d, want_rg = ref
+    if got == 'rejected':
+        return {'key': dict(key, cls='spurious-rejection'), 'case': c, 'what': f'`{call}` raised; the arguments are legal (expected shape {tuple(shape)}, dtype {d})'}
+    if got.startswith('r '):
+        if vals is not None or got != f'r {show_ints(shape)} {tprog.DTN.get(d, str(d))} rg={int(want_rg)}':
+            return {'key': dict(key, cls='random-result'), 'case': c, 'what': f'`{call}` answered {got}; expected shape {tuple(shape)}, dtype {d}, requires_grad {want_rg}, values inside the distribution'}
+        return None
+    v, dts, fl = io[k + 1], io[k + 2], io[k + 3]
+    arr = tprog.parse_arr(v) if '|' in v else None
+    if vals is None or arr is None or arr.shape != tuple(shape) or not np.allclose(arr, vals, rtol=c.get('rtol', 1e-6), atol=c.get('rtol', 1e-6) * max(1.0, float(np.max(np.abs(vals))) if vals.size else 1.0), equal_nan=True):
+        return {'key': dict(key, cls='value'), 'case': c, 'what': f'`{call}`: result {None if arr is None else arr.tolist()} (shape {None if arr is None else arr.shape}); the definition gives {None if vals is None else vals.tolist()} (shape {tuple(shape)})'}
+    if dts != tprog.DTN.get(d, str(d)):
+        return {'key': dict(key, cls='dtype'), 'case': c, 'what': f'`{call}`: dtype {dts}, expected {d}'}
+    if f'rg={int(want_rg)} ' not in fl:
+        return {'key': dict(key, cls='flags'), 'case': c, 'what': f'`{call}`: flags {fl}, expected requires_grad={want_rg}'}
+    return None
+
+
 def extract():
     """which NumPy calls the array kernels make is re-read from cpu_ops.py (Generated/KernelCalls.lean); the src_calls_* theorems are re-checked by the build"""
     import array_formulas
@@ -106,12 +432,24 @@ def cases(rng, tier):
         nl = len(leaves)
         c['lines'] = gen_ops.program(c, rng) + [f't val {nl}', f't val {nl + 1}', f't val {nl + 2}']
         out.append(c)
+    # every op on operands that are non-contiguous interior results (transpose / movedim / stepped or reversed slice / elementwise on those)
+    for op in gen_ops.OPS_BASIC:
+        for _ in range((40 if op == 'flatten' else 10 if op in ('reshape', 'sum', 'mean', 'max', 'min', 'unbind', 'stack', 'concat', 'slice', 'unfold_dim', 'matmul', 'addmm', 'clone') else 4) if tier == 'quick' else 200):
+            out.append(chain_case(rng, op))
+    for kind in sorted(set(views.VIEW_KINDS)):
+        for _ in range(3 if tier == 'quick' else 30):
+            out.append(chain_case(rng, 'flatten', [kind]))
     for _ in range(60 if tier == 'quick' else 1500):
         out.append(sop_case(rng))
     for _ in range(40 if tier == 'quick' else 1000):
         out.append(iter_case(rng))
     for _ in range(40 if tier == 'quick' else 1000):
         out.append(ctor_case(rng))
+    # constructor CALLS with every argument position: falsy-but-meaningful values (0, 0.0, -0.0, False, (), []), zero extents,
+    # negative / reversed / float intervals, keyword / positional spellings, dtype= / requires_grad= omitted, None or given
+    for _ in range(260 if tier == 'quick' else 6000):
+        out.append(mk_case(rng))
+    out += mk_enumerated(rng, tier)
     # corpus: nested loops over one tensor; x64 / 3
     out.append({'kind': 'iter', 'nit': 2, 'malformed': False, 'lines': [gen_dag.leaf_line((3, 2), [1., 2, 3, 4, 5, 6], False), 't iter new 0', 't iter next 0', 't iter new 0',
                 't iter next 1', 't iter next 1', 't iter next 1', 't iter next 1', 't iter next 0', 't iter next 0', 't iter next 0'] + [f't val {k}' for k in range(1, 7)]})
@@ -122,7 +460,7 @@ def cases(rng, tier):
 
 
 def impl(c):
-    io = tprog.run_program(c['lines'])
+    io = tprog.run_program(c['lines'], CtorImpl if c['kind'] == 'mk' else tprog.Impl)
     return io
 
 
@@ -131,7 +469,7 @@ def compare(c, mo, io):
     diffs = []
     for k, (m, i) in enumerate(zip(mo, io)):
         if m == 'bad-op' and i == 'rejected' and c['lines'][k].startswith(tprog.QUERIES + ('t iter next',)): continue   # no such tensor / iterator
-        if not tprog.close_line(m, i, 1e-6 if c.get('dt') == 'f32' else 1e-9):
+        if not tprog.close_line(m, i, c.get('rtol', 1e-6 if c.get('dt') == 'f32' else 1e-9)):
             diffs.append((c['lines'][k], m[:200], str(i)[:200]))
     return diffs[:3]
 
@@ -143,8 +481,15 @@ def nontrivial(c):
 def distribution(cases):
     d = {}
     for c in cases:
-        k = c['kind'] + (':' + c['op'] if 'op' in c else '')
+        k = c['kind'] + (':' + c['op'] if 'op' in c else '') + (':' + c['mk'] if 'mk' in c else '')
         d[k] = d.get(k, 0) + 1
+        if c.get('falsy'): d['mk: a falsy-but-meaningful argument value (0, 0.0, -0.0, False, (), [], zero extent)'] = d.get('mk: a falsy-but-meaningful argument value (0, 0.0, -0.0, False, (), [], zero extent)', 0) + 1
+        if c.get('enumerated_mk'): d['mk: arange grid around zero, every spelling'] = d.get('mk: arange grid around zero, every spelling', 0) + 1
+        if c['kind'] == 'mk':
+            sp = 'mk spelling: ' + [l for l in c['lines'] if l.startswith('t mk')][0].split(' ')[3].split(':')[0]
+            d[sp] = d.get(sp, 0) + 1
+        for v in c.get('chain', []): d[f'op on a non-contiguous interior operand: {v}'] = d.get(f'op on a non-contiguous interior operand: {v}', 0) + 1
+        if c.get('chain') and c.get('op') == 'flatten': d['flatten on a non-contiguous interior operand'] = d.get('flatten on a non-contiguous interior operand', 0) + 1
         if c.get('enumerated'): d['enumerated: complete argument space of the reducing / shape ops on small operands'] = d.get('enumerated: complete argument space of the reducing / shape ops on small operands', 0) + 1
     return d
 
@@ -200,8 +545,8 @@ def oracle(c):
     if c['kind'] != 'op':
         return _oracle_misc(c)
     io = tprog.run_program(c['lines'])
-    nl = len(c['leaves'])
-    cc = {k: v for k, v in c.items() if k in ('kind', 'op', 'leaves', 'args', 'malformed')}
+    nl = c.get('opline', len(c['leaves']))          # (position of the op line; chain cases have view ops in front of it)
+    cc = {k: v for k, v in c.items() if k in ('kind', 'op', 'leaves', 'args', 'malformed', 'lines', 'opline', 'chain')}
     key = {'op': c['op']}
     try:
         with np.errstate(all='ignore'):
@@ -225,6 +570,7 @@ def oracle(c):
 
 
 def _oracle_misc(c):
+    if c['kind'] == 'mk': return _oracle_mk(c)
     io = tprog.run_program(c['lines'])
     if c['kind'] == 'iter':
         # every iterator must see rows 0..n-1 in order, independently of the others
